@@ -157,3 +157,12 @@ pub fn into(line: &str) -> String {
     };
     r.iter().map(|n| n.to_string() + ".").collect::<String>() + "|"
 }
+
+/// `label text` (U+2423 = space; the text may be empty) -> `ok secs nanos` | `rejected`
+pub fn psec(line: &str) -> String {
+    let text = line.split_once(' ').map(|(_, t)| t).unwrap_or("").replace('\u{2423}', " ");
+    match v::parse_seconds(&text) {
+        Some(d) => format!("ok {} {}", d.as_secs(), d.subsec_nanos()),
+        None => "rejected".to_owned(),
+    }
+}
